@@ -548,6 +548,7 @@ def records(ctx):
     boundary_records(ctx, add, base_in)
     reuse_records(ctx, add, base_in)
     alias_records(ctx, add, base_in)
+    marginal_order_records(ctx, add, base_in)
     return balance(recs)
 
 
